@@ -370,6 +370,7 @@ func (m *BatchMon) OnEvent(c *eng.Ctx, ms eng.MState, ev *eng.Event) eng.MState 
 			if len(ev.Results) > 0 {
 				s.conc = ev.Results[0]
 				chk("C08.R6,C19.R7", "config-read", cfgRecv(ev) != nil && cfgRecv(ev).Contains(m.Life.Node) && validAssertions(c, cfgRecv(ev)), "batch concurrency is not read from the node being run (or through a type assertion that is not known to hold)")
+				chk("C08.R6,C19.R7", "config-read", life.nPrep >= 1, "the batch concurrency is read before prep ran: what prep (user code of the node) configures for this very run is ignored")
 			}
 		case "cfg:GetBatchErrorHandling":
 			chk("C08.R6,C19.R7", "config-read", cfgRecv(ev) != nil && cfgRecv(ev).Contains(m.Life.Node) && validAssertions(c, cfgRecv(ev)), "batch error handling is not read from the node being run (or through a type assertion that is not known to hold)")
